@@ -148,7 +148,7 @@ def main() -> int:
     harness_errors = [ob for ob in obs if ob.verdict == 'harness_error']
     claims = [ob for ob in obs if ob.claim]
     confirmed = [ob for ob in claims if ob.verdict == 'confirmed']
-    inconclusive = [ob for ob in obs if ob.verdict == 'inconclusive' and (ob.claim or ob.kind == 'twin')]
+    inconclusive = [ob for ob in obs if ob.verdict in ('inconclusive', 'pending') and (ob.claim or ob.kind in ('twin', 'finding', 'validation'))]
     # a confirmed claim whose twin is not 'reachable' is vacuous-suspect: demote
     twins = {ob.name[:-len('__reach')]: ob for ob in obs if ob.kind == 'twin'}
     vacuous = []
@@ -158,8 +158,14 @@ def main() -> int:
             vacuous.append(ob)
 
     wall = round(time.time() - t0, 1)
+    shown = 0
     for ob in obs:
-        if ob.kind == 'twin' and ob.verdict == 'reachable':
+        if (ob.kind == 'twin' and ob.verdict == 'reachable') or ob.verdict == 'duplicate':
+            continue
+        if ob.verdict == 'confirmed' and len(obs) > 80:
+            continue
+        shown += 1
+        if shown > 120:
             continue
         log(f'  [{ob.verdict:12}] {ob.name} ({ob.kind}, paths={ob.paths}, {ob.wall_s}s) '
             f'{ob.detail[:160] if ob.verdict != "confirmed" else ""}')
